@@ -51,6 +51,7 @@ func (k Keeper) handleBridgeHook(ctx sdk.Context, data []byte, hookMaxGas uint64
 
 	// use cache context from here to avoid resetting sequencer number on failure
 	cacheCtx, commit := ctx.CacheContext()
+	events := sdk.EmptyEvents()
 	for _, msg := range tx.GetMsgs() {
 		handler := k.router.Handler(msg)
 		if handler == nil {
@@ -58,14 +59,22 @@ func (k Keeper) handleBridgeHook(ctx sdk.Context, data []byte, hookMaxGas uint64
 			return
 		}
 
-		_, err = handler(cacheCtx, msg)
+		var res *sdk.Result
+		res, err = handler(cacheCtx, msg)
 		if err != nil {
 			reason = fmt.Sprintf("Failed to execute Msg: %s", err)
 			return
 		}
+
+		events = append(events, res.GetEvents()...)
 	}
 
 	commit()
+
+	// the msg service router runs every handler with its own event manager, so the events of the
+	// hook messages (e.g. a token withdrawal that the bridge executor has to relay to l1) would be
+	// lost unless they are emitted here, like ExecuteMessages does.
+	ctx.EventManager().EmitEvents(events)
 	success = true
 
 	return
